@@ -136,11 +136,18 @@ impl SymbolTypes {
                             grammar.symbol_names(rhs.iter().map(|a| a.symbol).collect::<Vec<_>>());
                         for assign in &rhs {
                             let ref_type = grammar.symbol_name(assign.symbol);
+                            let field_name = to_snake_case(&ref_type);
+                            // The name must not be the one given to another
+                            // assignment of this production.
+                            let name_given = rhs
+                                .iter()
+                                .any(|a| a.name.as_ref().is_some_and(|n| *n.as_ref() == field_name));
                             let name = assign.name.clone().unwrap_or(Name::new(
                                 format!(
                                     "{}{}",
-                                    to_snake_case(&ref_type),
-                                    if type_names.iter().filter(|&ty| *ty == ref_type).count() > 1
+                                    field_name,
+                                    if name_given
+                                        || type_names.iter().filter(|&ty| *ty == ref_type).count() > 1
                                     {
                                         // Not a unique rule ref inside this choice
                                         format!("_{}", assign.idx + 1)
